@@ -285,8 +285,10 @@ static int run_c12(uint64_t seed, long scenarios) {
     // parameters: representable in 6 decimals on even scenarios, arbitrary floats on odd ones (finding F7)
     const bool representable = sc % 2 == 0;
     std::vector<float> origin(3);
-    for (int c = 0; c < 3; ++c) { origin[c] = -0.75f * mag * (1.f + 0.01f * (float)r.unit()); if (representable) origin[c] = snap(origin[c]); }
-    float range = 1.5f * mag * (1.f + 0.01f * (float)r.unit());
+    // the box [origin, origin + range] contains every coordinate ([-mag/2, mag/2]); the mantissas of origin and range are spread over more than a
+    // binade (floats just above a power of ten need all 9 significant decimal digits to survive the options' string store)
+    for (int c = 0; c < 3; ++c) { origin[c] = -mag * (0.5f + 0.8f * (float)r.unit()); if (representable) origin[c] = snap(origin[c]); }
+    float range = (1.3f * mag + 0.5f * mag) * (1.f + 1.2f * (float)r.unit());
     if (representable) range = snap(range);
     out.begin("XScenario").i("sc", sc).i("q", q).b("representable", representable).raw("origin", jf(origin)).i("range", fbits(range)).end();
     for (int tile = 0; tile < 2; ++tile) {
